@@ -163,7 +163,9 @@ def get_flask_app(
     from flask import Flask
 
     blueprint = get_flask_blueprint(converter, **(blueprint_kwargs or {}))
-    app = Flask(__name__, **(flask_kwargs or {}))
+    # the resolver serves no static files: without this, Flask's implicit ``/static/<path:filename>``
+    # route answers 404 for a converter with a prefix named "static" and the delimiter "/"
+    app = Flask(__name__, **{"static_folder": None, **(flask_kwargs or {})})
     app.register_blueprint(blueprint, **(register_kwargs or {}))
     return app
 
